@@ -286,6 +286,16 @@ CHECKS += [
          technique="lifted execution of the real CompilePipeline on z3 integer terms (path forks decided by the solver); z3 validity queries per routed result"),
 ]
 
+CHECKS += [
+    dict(property_id="C27", category="other", engine=E1,
+         text="10 circuits x 7 measurement lists with SYMBOLIC gate angles run through the real simulation code of default.qubit, default.mixed (density-matrix kernels) and "
+              "reference.qubit (its whole preprocessing pipeline - split_non_commuting, diagonalize_measurements, decompose to the native gate set - then simulate and the "
+              "pipeline post-processing); z3 proves every analytic result of default.mixed / reference.qubit equal to the default.qubit result for ALL angles (state: "
+              "rho == |psi><psi|). null.qubit: result shapes. Category 'other' because of the recorded known finding F19 (reference.qubit + Hermitian observables).",
+         note=PROOF_NOTE + " Outside: default.tensor (quimb) and default.clifford (stim) execute in external numeric libraries that cannot carry solver terms; finite shots.",
+         technique="lifted execution of three device simulators on z3 circle-polynomial terms; z3 QF_NRA equality proofs between device results"),
+]
+
 _NOT_BUILT = "claimed in DESIGN.md §4 but its solver-based check is not built yet in this tree"
 NOT_APPLICABLE_REASONS = {
     "C04": "equality/hash: Python hash() of concrete payloads and tolerance-based allclose relations; no exact relation a solver can decide",
